@@ -166,6 +166,20 @@ def timing_desc(t):
             "tss": None if t._timestamps is None else [read_dtm(x) for x in t._timestamps]}
 
 
+def public_timing(o):
+    """the stored members, cross-checked against the public read the property promises: with irregular timing,
+    timing.get_timestamps(0, sample_count) succeeds and yields the stored timestamps, one per sample"""
+    td = timing_desc(o.timing)
+    if td["mode"] == 2 and td["tss"] is not None and len(td["tss"]) == o.sample_count:
+        try:
+            pub = [read_dtm(x) for x in o.timing.get_timestamps(0, o.sample_count)]
+        except Exception:
+            pub = None
+        if pub != td["tss"]:
+            td["tss"] = pub  # reported as the timing's content: no longer what the model and the spec expect
+    return td
+
+
 def snapshot(o):
     k = kind_of(o)
     data = o._data
@@ -176,7 +190,7 @@ def snapshot(o):
             "ncols": ncols, "start": o.start_index, "count": o.sample_count, "cap": o.capacity,
             # ndarray.resize needs to own its data unless the total size stays 0 (a waveform with 0 signals)
             "resizable": bool(base.flags.owndata and base.flags.c_contiguous) or ncols == 0,
-            "timing": timing_desc(o.timing) if k != "S" else {"mode": 0, "ts": None, "off": None, "si": None, "tss": None},
+            "timing": public_timing(o) if k != "S" else {"mode": 0, "ts": None, "off": None, "si": None, "tss": None},
             "scale": scale_id(o.scale_mode) if k in ("A", "C") else 0,
             "props": {kk: vv for kk, vv in o.extended_properties.items()},
             # public views, for the spec side
